@@ -118,6 +118,10 @@ const (
 func CheckValidSignature(ctx *fiber.Ctx, auth AuthData, secret, checksum string, tdate time.Time, contentLen int64, debug bool) error {
 	signedHdrs := strings.Split(auth.SignedHeaders, ";")
 
+	if hasUnsignedAmzHeader(ctx, signedHdrs) {
+		return s3err.GetAPIError(s3err.ErrUnsignedHeaders)
+	}
+
 	// Create a new http request instance from fasthttp request
 	req, err := createHttpRequestFromCtx(ctx, signedHdrs, contentLen)
 	if err != nil {
